@@ -254,6 +254,82 @@ def case_rst_with_unread_data_send_first(env):
             outcome(lambda: env.select.select([f], [], [], 0))]
 
 
+def _poll(env, f, mask=None, timeout=0):
+    def go():
+        p = env.select.poll()
+        if mask is None:
+            p.register(f)
+        else:
+            p.register(f, mask)
+        return sorted(ev for _fd, ev in p.poll(timeout))
+    return outcome(go)
+
+
+def case_poll_idle_data_eof(env):
+    s = env.connect()
+    f = s.makefile('rb', 0)
+    IN = env.select.POLLIN
+    a = _poll(env, f, IN)
+    b = _poll(env, f, IN, 50)
+    env.server_send(b'abc')
+    c = _poll(env, f, IN)
+    c2 = _poll(env, s, IN | env.select.POLLOUT)
+    f.read(3)
+    d = _poll(env, f, IN)
+    env.server_close()
+    e = _poll(env, f, IN)
+    e2 = _poll(env, f)
+    f.read(1)
+    g = _poll(env, f, IN)
+    return [a, b, c, c2, d, e, e2, g]
+
+
+def case_poll_rst(env):
+    s = env.connect()
+    f = s.makefile('rb', 0)
+    IN = env.select.POLLIN
+    env.server_send(b'abcdef')
+    env.server_rst()
+    a = _poll(env, f, IN)
+    r1 = outcome(lambda: f.read(6))
+    b = _poll(env, f, IN)
+    r2 = outcome(lambda: f.read(1))
+    c = _poll(env, f, IN)
+    r3 = outcome(lambda: f.read(1))
+    d = _poll(env, f, IN)
+    return [a, r1, b, r2, c, r3, d]
+
+
+def case_poll_after_shutdown_and_close(env):
+    s = env.connect()
+    f = s.makefile('rb', 0)
+    IN = env.select.POLLIN
+    s.shutdown(env.socket.SHUT_RDWR)
+    a = _poll(env, f, IN)
+    f.close()
+    b = _poll(env, f, IN)
+    s.close()
+    return [a, b]
+
+
+def case_poll_blocked_then_shutdown(env):
+    s = env.connect()
+    f = s.makefile('rb', 0)
+    env.later(0.1, lambda: s.shutdown(env.socket.SHUT_RDWR))
+    return [_poll(env, f, env.select.POLLIN, 2000),
+            outcome(lambda: f.read(1))]
+
+
+def case_poll_fin_after_local_wr_shutdown(env):
+    s = env.connect()
+    f = s.makefile('rb', 0)
+    s.shutdown(env.socket.SHUT_WR)
+    a = _poll(env, f, env.select.POLLIN)
+    env.server_close()
+    b = _poll(env, f, env.select.POLLIN)
+    return [a, b]
+
+
 def case_select_timeout(env):
     s = env.connect()
     f = s.makefile('rb', 0)
@@ -344,6 +420,10 @@ CASES = [case_refused, case_read_data_short, case_read_eof,
          case_read_after_file_close, case_read_after_rst,
          case_rst_with_unread_data_read_first,
          case_rst_with_unread_data_send_first,
+         case_poll_idle_data_eof, case_poll_rst,
+         case_poll_after_shutdown_and_close,
+         case_poll_blocked_then_shutdown,
+         case_poll_fin_after_local_wr_shutdown,
          case_select_timeout, case_blocked_read_then_shutdown,
          case_blocked_select_then_shutdown,
          case_blocked_read_then_shutdown_wr, case_send_after_shutdown,
